@@ -5,6 +5,7 @@
 pub fn exception_entry<M: Mem>(e: &mut Exp, m: &mut M, vector: u32, ret_pc: u32) {
     let sp = rl(&e.st.er, 7);
     let frame = sp.wrapping_sub(4) & ADDR_MASK;
+    stack_pre(e, frame);
     let ccr = e.st.ccr;
     e.wr32(frame, ((ccr as u32) << 24) | (ret_pc & ADDR_MASK));
     wl(&mut e.st.er, 7, sp.wrapping_sub(4));
@@ -15,9 +16,24 @@ pub fn exception_entry<M: Mem>(e: &mut Exp, m: &mut M, vector: u32, ret_pc: u32)
     e.free_ccr = CCR_UI;
 }
 
+/// C05/C06 quantify over stack pointers in on-chip RAM and DRAM: a frame byte that is accessible but
+/// lies in the vector area or in the I/O register ranges is outside the quantifier
+fn stack_pre(e: &mut Exp, frame: u32) {
+    let mut i = 0u32;
+    while i < 4 {
+        let a = frame.wrapping_add(i);
+        let ram = (a >= 0xffbf20 && a <= 0xffff1f) || (a >= 0x400000 && a <= 0x5fffff);
+        if mapped(a) && !ram {
+            e.pre = false;
+        }
+        i += 1;
+    }
+}
+
 fn push_ret(e: &mut Exp, ret_pc: u32) -> u32 {
     let sp = rl(&e.st.er, 7);
     let frame = sp.wrapping_sub(4) & ADDR_MASK;
+    stack_pre(e, frame);
     e.wr32_low24(frame, ret_pc & ADDR_MASK);
     wl(&mut e.st.er, 7, sp.wrapping_sub(4));
     frame
@@ -330,6 +346,7 @@ pub fn step<M: Mem>(st: &St, wd: &Words, m: &mut M) -> Exp {
                 let sp = rl(&st.er, 7);
                 let a = sp & ADDR_MASK;
                 e.exec(F_RTS, 2);
+                stack_pre(&mut e, a);
                 let v = e.rd32(m, a);
                 e.st.pc = v & ADDR_MASK;
                 wl(&mut e.st.er, 7, sp.wrapping_add(4));
@@ -351,6 +368,7 @@ pub fn step<M: Mem>(st: &St, wd: &Words, m: &mut M) -> Exp {
                 let sp = rl(&st.er, 7);
                 let a = sp & ADDR_MASK;
                 e.exec(F_RTE, 2);
+                stack_pre(&mut e, a);
                 let v = e.rd32(m, a);
                 e.st.ccr = (v >> 24) as u8;
                 e.st.pc = v & ADDR_MASK;
@@ -427,6 +445,9 @@ pub fn step<M: Mem>(st: &St, wd: &Words, m: &mut M) -> Exp {
         0x5d => {
             if b1 & 0x8f == 0 {
                 e.exec(F_JSR_ERN, 2);
+                if rs4 & 7 == 7 {
+                    e.pre = false; // JSR @ER7: which SP value is the target is not specified by the statements
+                }
                 let ret = e.st.pc;
                 let target = rl(&st.er, rs4) & ADDR_MASK;
                 let frame = push_ret(&mut e, ret);
